@@ -616,6 +616,10 @@ func checkC15(r *mon.Run) {
 			r.Count("faults_with_errno", 1)
 		}
 		replay := map[string]any{"op": p.op, "k": p.k, "mode": p.mode, "persistence": tr, "fault_free_sequence": seqs[p.op].Kinds}
+		if rs.Outcome == "skipped-after-timeouts" {
+			r.Count("cases_not_run_after_repeated_timeouts", 1)
+			continue
+		}
 		if rs.Outcome != "ret" {
 			kind := rs.Outcome
 			r.Violation("C15|"+opClass(p.op)+"|process-"+kind+"|"+firstLogLine(rs.Tail+rs.Panic), fmt.Sprintf("%s with call %d failing (%s, %s): the process did not survive: %s %s", p.op, p.k, p.mode, tr, rs.Panic, lastLines(rs.Tail, 2)), replay)
